@@ -79,4 +79,20 @@ theorem randomOneOp_records (st : St) (k : Nat) (hk1 : 1 ≤ k) (hk : k < 6) (q 
   rcases this with h | h | h | h | h <;> subst h <;>
     exact ⟨_, rfl, by simp [randomOneOp, singleGateList, step, checkArgs, GateKey.arity, hq]⟩
 
+/-- a successful random two-qubit draw (`k < 3`, distinct non-negative indices) records `list[k]` on `(a, b)` — in this order — and
+drops the cache -/
+theorem randomTwoOp_records (st : St) (k : Nat) (hk : k < 3) (a b : Nat) (hab : a ≠ b) :
+    ∃ key, twoGateList[k]? = some key ∧
+      step st (randomTwoOp k (a : Int) (b : Int)) = ({ gates := st.gates ++ [⟨key, [a, b]⟩], cache := none }, .unit) := by
+  have : k = 0 ∨ k = 1 ∨ k = 2 := by omega
+  have ha : ¬ ((a : Int) < 0) := by omega
+  have hb : ¬ ((b : Int) < 0) := by omega
+  have hne : ¬ ((a : Int) = (b : Int)) := by omega
+  rcases this with h | h | h <;> subst h <;>
+    exact ⟨_, rfl, by simp [randomTwoOp, twoGateList, step, checkArgs, GateKey.arity, ha, hb, hne]⟩
+
+theorem randomTwoDraws_spec (a b : Int) : randomTwoDraws a a = 0 ∧ (a ≠ b → randomTwoDraws a b = 1) := by
+  unfold randomTwoDraws
+  exact ⟨by simp, fun h => by simp [h]⟩
+
 end Numqi.Clifford
